@@ -221,6 +221,9 @@ nanmedian = partial(partial(_np_grouped_op, q=0.5), op=partial(quantile_, skipna
 
 
 def sum_of_squares(group_idx, array, *, axis=-1, size=None, fill_value=None, dtype=None):
+    if dtype is not None and array.dtype.kind in "iub":
+        # square in the accumulation dtype: int8/int16 squares wrap at the input width
+        array = array.astype(dtype, copy=False)
     return sum(
         group_idx,
         array**2,
